@@ -15,6 +15,14 @@ CHECKS = {
             "Generated commit/merge/delete histories and query trees; every query is evaluated through ten access paths on the real index and compared, in both directions, with a reference evaluator over the document model and with each other. Sampling of an unbounded space: small corpora (<=60 docs), depth<=4 trees.",
             "Trusts wv/refquery.py as the documented meaning; FuzzyTerm checked as an interval (variant of edit distance decided in C19); Regex = re.match.",
             "DESIGN.md section 2 C01"),
+    "C05": ("exploration",
+            "property-based testing (Hypothesis): differential search(limit=k) vs prefix of search(limit=None) on generated multi-block corpora, with engagement of block skipping measured",
+            "Generated corpora with long posting lists (block limit 1-8, 1-4 segments, deletions), generated scored query trees and weighting models; for k in {1,2,3,5,10,|hits|-1} "
+            "the limited result list (documents, scores, order) - plain, with terms=True, filter, mask - must equal the first k entries of the exhaustive ranking. ~85% of the "
+            "(query,k) pairs actually go through block skipping / matcher replacement. One recorded finding (compound boost > 1, pinned by the repository's tests) is attributed "
+            "only when the same query without those boosts passes.",
+            "The exhaustive ranking is the reference. Score tolerance 1e-9; ties that differ only by float re-association between matcher implementations are accepted in either order.",
+            "DESIGN.md section 2 C05"),
     "C06": ("exploration",
             "property-based testing (Hypothesis): differential between generated physical histories of one logical operation list, compared through a canonical logical dump",
             "One generated document-level operation list (adds, parent/child groups, deletes, updates in epochs) is built through three generated physical histories "
